@@ -37,13 +37,15 @@ func nodesWithRanges(st *vStore, r *Root) []rangedNode {
 	return out
 }
 
+// inRange: k lies within the node's key range, bounds included: a modified key that *is* one of
+// the neighbouring parent keys (a deleted separator) necessarily reshapes the node next to it.
 func inRange(n rangedNode, k uint64) bool {
 	ok := true
 	if n.hasLo {
-		ok = verifAnd(ok, n.lo < k)
+		ok = verifAnd(ok, n.lo <= k)
 	}
 	if n.hasHi {
-		ok = verifAnd(ok, k < n.hi)
+		ok = verifAnd(ok, k <= n.hi)
 	}
 	return ok
 }
@@ -88,6 +90,7 @@ func HarnessC13a() {
 	var touched []uint64
 	changed := false
 	nmods := 0
+	heightStable := true
 	for i := 0; i < B; i++ {
 		k, v := verifNondetKey("k"), verifNondetVal("v")
 		f, mv := md.lookup(k)
@@ -108,6 +111,9 @@ func HarnessC13a() {
 				touched = append(touched, k)
 				nmods++
 			}
+		}
+		if cur.Height() != r0.Height {
+			heightStable = false // "as long as the height has not changed since that version"
 		}
 	}
 	// contents equal to V0 on every touched key (untouched keys cannot differ)
@@ -138,7 +144,7 @@ func HarnessC13a() {
 	for _, w := range written {
 		verifAssert("C13.written-is-reachable", nameIn(w, reach1))
 	}
-	if r1.Height == r0.Height && h0 == r0.Height {
+	if r1.Height == r0.Height && h0 == r0.Height && heightStable {
 		verifAssert("C13.write-count", len(written) <= (2*int(r1.Height)+2)*nmods)
 		for _, o := range old {
 			replaced := !nameIn(o.name, reach1)
